@@ -96,12 +96,26 @@ func scnGenesisRoundTrip(ctx *check.JobCtx) {
 	p.Drain = false
 	p.BlockReward = 1000
 	p.Params = func(np *nodetypes.Params) { np.FishmenInfo = w.Acct("gw1").Addr.String() }
+	p.PoorSP = ctx.Arg("debt", "") == "1"
 	l := SetupLife(w, p)
 	if w.Halted() {
 		w.Finish()
 		return
 	}
 	r := w.Rng
+	if p.PoorSP {
+		// deterministic prefix: a provider without liquid balance holds a shard whose renewal needs more collateral
+		// than it has: a pledge-debt row exists at export time
+		o := l.Owners[0]
+		did := w.NewDataId()
+		_, oid := w.Store(world.StoreReq{Owner: o.Id, Gateway: l.GW[0], DataId: did, CommitId: did, Duration: 4000, Replica: int32(len(l.SP)), Timeout: 300, Size: 1_000_000})
+		w.CompleteAll(oid)
+		w.EndBlock()
+		w.Advance(int64(5 + r.Intn(100)))
+		w.Renew(o.Id, nil, l.GW[0].Acct, "", 60*60*24*30, 300, nil, did)
+		w.EndBlock()
+		w.Case("c18:recipe:debt-rows=%d", minInt(len(w.Cur.Debts), 3))
+	}
 	// a fishman (the second gateway) so that fault rows and fishing rewards exist at export time
 	fishman := l.GW[1].Acct
 	withFaults := ctx.Arg("faults", "1") == "1"
